@@ -1,5 +1,6 @@
 """Helpers shared by the per-property rule modules."""
 import ast
+import os
 
 from ..model import AnalysisError, attr_chain, src, walk_no_nested
 
@@ -1010,3 +1011,227 @@ def digest_size_table(ctx, fi):
         except (tq.NoValue, Exception):
             return None
     return {h: value(fi, h) for h in ('sha1', 'sha256', 'sha512')}
+
+
+# ----------------------------------------------------------------------------------------------- per-object state is per object
+_MUTATORS_SS = {'append', 'extend', 'insert', 'remove', 'pop', 'clear', 'update', 'add', 'discard', 'setdefault', 'popitem', 'sort',
+                'reverse', '__setitem__', '__delitem__', 'move_to_end', 'appendleft', 'popleft'}
+_CONTAINER_CTORS = {'dict', 'list', 'set', 'defaultdict', 'OrderedDict', 'WeakValueDictionary', 'WeakKeyDictionary', 'deque', 'Counter',
+                    'bytearray'}
+
+
+def _is_container(e):
+    if isinstance(e, (ast.Dict, ast.List, ast.Set, ast.DictComp, ast.ListComp, ast.SetComp)):
+        return True
+    return isinstance(e, ast.Call) and isinstance(e.func, (ast.Name, ast.Attribute)) and src(e.func).split('.')[-1] in _CONTAINER_CTORS
+
+
+def _immutable_result(e, local_classes=()):
+    if isinstance(e, ast.Name):
+        return e.id in local_classes or e.id in ('None', 'True', 'False')
+    if isinstance(e, ast.Constant):
+        return True
+    if isinstance(e, ast.Tuple):
+        return all(_immutable_result(x, local_classes) for x in e.elts)
+    if isinstance(e, (ast.BinOp, ast.UnaryOp, ast.Compare, ast.BoolOp, ast.JoinedStr)):
+        return not any(isinstance(x, (ast.List, ast.Dict, ast.Set, ast.ListComp, ast.DictComp, ast.SetComp)) for x in ast.walk(e))
+    if isinstance(e, ast.Call) and isinstance(e.func, (ast.Name, ast.Attribute)):
+        return src(e.func).split('.')[-1] in ('len', 'int', 'bytes', 'str', 'tuple', 'frozenset', 'Struct', 'ip_address', 'ip_network', 'format',
+                                              'DHParameterNumbers', 'DHPublicNumbers', 'EllipticCurvePublicNumbers', 'calcsize', 'sizeof',
+                                              'hex', 'bool', 'float', 'min', 'max', 'sum', 'abs', 'round', 'join')
+    return False
+
+
+def shared_state_findings(ctx):
+    """Every place where state that should belong to one object (one IKE_SA, one message, one cipher context, one configuration record)
+    is kept where all objects of the program see it - and is written at run time:
+      * a class-level or module-level container written inside a function (`Class._table[k] = v`, `cls._cache.setdefault(..)`,
+        `_seen.append(x)`), including through `self.<name>` when no constructor gives the instance a container of its own;
+      * an attribute assigned on a class object inside a function (`cls.x = v`, `payload_class.flag = v`);
+      * a mutable default argument, or a mutable default of a record field, that is written or handed out;
+      * a memoising decorator on a function whose result is a mutable object.
+    The code base's own class-level tables are only read.  [(owner qualname, site text, FuncInfo of the writer or None, description)]"""
+    cached = getattr(ctx, '_shared_state', None)
+    if cached is not None:
+        return cached
+    prog, res = ctx.prog, ctx.res
+    out = []
+    class_containers = {}        # (class qual, attr) -> ClassInfo
+    for c in prog.classes.values():
+        for st in c.node.body:
+            if isinstance(st, ast.Assign) and len(st.targets) == 1 and isinstance(st.targets[0], ast.Name) and _is_container(st.value):
+                class_containers[(c.qual, st.targets[0].id)] = c
+            if isinstance(st, ast.AnnAssign) and isinstance(st.target, ast.Name) and st.value is not None and _is_container(st.value):
+                class_containers[(c.qual, st.target.id)] = c
+    module_containers = {}
+    for m in prog.modules.values():
+        for st in m.tree.body:
+            if isinstance(st, ast.Assign) and len(st.targets) == 1 and isinstance(st.targets[0], ast.Name) and _is_container(st.value):
+                module_containers[(m.name, st.targets[0].id)] = m
+
+    def instance_owned(c, attr):
+        """some constructor of the class (or of a base) gives the instance its own value for the attribute"""
+        for k in c.mro():
+            init = k.methods.get('__init__')
+            if init is not None and isinstance(init.node, ast.FunctionDef):
+                for x in ast.walk(init.node):
+                    if isinstance(x, ast.Attribute) and x.attr == attr and isinstance(x.ctx, ast.Store) and isinstance(x.value, ast.Name) \
+                            and x.value.id == init.self_name:
+                        return True
+        return False
+
+    def owner_of(base, fi):
+        """('class', qual, attr) / ('module', name, attr) when the expression names a shared container, else None"""
+        if isinstance(base, ast.Attribute):
+            v = base.value
+            cands = []
+            if isinstance(v, ast.Name) and fi is not None and fi.cls is not None and v.id in (fi.self_name, 'cls', fi.cls.name):
+                cands = [fi.cls]
+            elif isinstance(v, ast.Name) and v.id in {c.name for c in prog.classes.values()}:
+                cands = [c for c in prog.classes.values() if c.name == v.id]
+            elif isinstance(v, ast.Call) and isinstance(v.func, ast.Name) and v.func.id == 'type' and fi is not None and fi.cls is not None:
+                cands = [fi.cls]
+            for c in cands:
+                for k in c.mro():
+                    if (k.qual, base.attr) in class_containers:
+                        via_self = isinstance(v, ast.Name) and fi is not None and v.id == fi.self_name and not (fi.is_classmethod if hasattr(fi, 'is_classmethod') else False)
+                        if via_self and instance_owned(c, base.attr):
+                            return None
+                        return ('class', k.qual, base.attr)
+        if isinstance(base, ast.Name) and fi is not None:
+            locs = {x.id for x in ast.walk(fi.node) if isinstance(x, ast.Name) and isinstance(x.ctx, ast.Store)} | set(fi.params) | set(fi.kwonly)
+            glob = {n for x in ast.walk(fi.node) if isinstance(x, ast.Global) for n in x.names}
+            if (base.id not in locs or base.id in glob) and (fi.module.name, base.id) in module_containers:
+                return ('module', fi.module.name, base.id)
+        return None
+
+    def memo_idiom(fi, owner):
+        """the function is a hand-written memo of a pure computation: the table is keyed by (all of) its parameters and what is stored is an
+        immutable value computed from them"""
+        ps = [p for p in fi.params if p not in (fi.self_name,)] + list(fi.kwonly)
+        if not ps:
+            return False
+        stores = [x for x in ast.walk(fi.node) if isinstance(x, ast.Subscript) and isinstance(x.ctx, ast.Store) and owner_of(x.value, fi) == owner]
+        if not stores:
+            return False
+        for s_ in stores:
+            key_names = {y.id for y in ast.walk(s_.slice) if isinstance(y, ast.Name)}
+            if key_names != set(ps):
+                return False
+        for st in ast.walk(fi.node):
+            if isinstance(st, ast.Assign) and any(t in stores for t in st.targets):
+                if not _immutable_result(st.value):
+                    return False
+                if {y.id for y in ast.walk(st.value) if isinstance(y, ast.Name) and isinstance(y.ctx, ast.Load)} - set(ps) - {
+                        n for (mn, n) in module_containers} - {c.name for c in prog.classes.values()} - set(dir(__builtins__) if not isinstance(__builtins__, dict) else __builtins__):
+                    return False
+        return not any(isinstance(x, ast.Call) and isinstance(x.func, ast.Attribute) and x.func.attr in _MUTATORS_SS
+                       and owner_of(x.func.value, fi) == owner for x in ast.walk(fi.node))
+    from ..model import FuncInfo
+
+    def all_defs():
+        """every function definition of the program - also the second definition under one name (a property setter) that the program
+        model keeps only one of"""
+        by_node = {id(f.node): f for f in prog.all_functions()}
+        cls_of = {id(c.node): c for c in prog.classes.values()}
+        for m in prog.modules.values():
+            stack = [(m.tree, None)]
+            while stack:
+                node, cls = stack.pop()
+                for ch in ast.iter_child_nodes(node):
+                    if isinstance(ch, ast.ClassDef):
+                        stack.append((ch, cls_of.get(id(ch))))
+                    elif isinstance(ch, (ast.FunctionDef, ast.AsyncFunctionDef)):
+                        if id(ch) in by_node:
+                            yield by_node[id(ch)]
+                        else:
+                            try:
+                                yield FuncInfo(m, cls, ch, '%s.%s' % (cls.qual if cls is not None else m.name, ch.name))
+                            except Exception:
+                                continue
+                    else:
+                        stack.append((ch, cls))
+    for fi in all_defs():
+        if not isinstance(fi.node, (ast.FunctionDef, ast.AsyncFunctionDef)):
+            continue
+        for x in ast.walk(fi.node):
+            own = what = None
+            if isinstance(x, ast.Subscript) and isinstance(x.ctx, (ast.Store, ast.Del)):
+                own, what = owner_of(x.value, fi), 'entry written'
+            elif isinstance(x, ast.Call) and isinstance(x.func, ast.Attribute) and x.func.attr in _MUTATORS_SS:
+                own, what = owner_of(x.func.value, fi), '.%s()' % x.func.attr
+            elif isinstance(x, ast.AugAssign) and owner_of(x.target, fi) is not None:
+                own, what = owner_of(x.target, fi), 'updated in place'
+            if own is not None and not memo_idiom(fi, own):
+                out.append((('%s.%s' % (own[1], own[2])), ctx.site(fi, x), fi,
+                            '%s-level container `%s.%s` (shared by every object) is written at run time in %s: %s' % (
+                                own[0], own[1].split('.')[-1], own[2], fi.qual, what)))
+            # an attribute assigned on a class object
+            if isinstance(x, ast.Attribute) and isinstance(x.ctx, ast.Store) and fi.name not in ('__init_subclass__', '__set_name__'):
+                v = x.value
+                is_cls = isinstance(v, ast.Name) and (v.id == 'cls' and fi.cls is not None and getattr(fi, 'is_classmethod', False)
+                                                    or v.id in {c.name for c in prog.classes.values()})
+                if not is_cls and isinstance(v, ast.Name) and v.id not in (fi.self_name,):
+                    try:
+                        ty = res.expr_type(v, fi)
+                    except Exception:
+                        ty = set()
+                    is_cls = bool(ty) and all(isinstance(t, tuple) and t and t[0] == 'cls' for t in ty)
+                if is_cls:
+                    out.append((src(v) + '.' + x.attr, ctx.site(fi, x), fi,
+                                'attribute `%s` is assigned on a class object in %s: every instance of that class sees the value' % (
+                                    src(x), fi.qual)))
+        # mutable defaults
+        a = fi.node.args
+        pos = a.posonlyargs + a.args
+        for p_, d_ in list(zip(pos[len(pos) - len(a.defaults):], a.defaults)) + [(k, d) for k, d in zip(a.kwonlyargs, a.kw_defaults) if d is not None]:
+            if _is_container(d_):
+                used = [y for y in ast.walk(fi.node) if isinstance(y, ast.Name) and y.id == p_.arg and isinstance(y.ctx, ast.Load)]
+                written = any(isinstance(y, ast.Subscript) and isinstance(y.ctx, (ast.Store, ast.Del)) and isinstance(y.value, ast.Name) and y.value.id == p_.arg
+                              for y in ast.walk(fi.node)) or any(
+                    isinstance(y, ast.Call) and isinstance(y.func, ast.Attribute) and y.func.attr in _MUTATORS_SS and isinstance(y.func.value, ast.Name)
+                    and y.func.value.id == p_.arg for y in ast.walk(fi.node))
+                kept = any(isinstance(y, ast.Assign) and isinstance(y.value, ast.Name) and y.value.id == p_.arg and any(
+                    isinstance(t, ast.Attribute) for t in y.targets) for y in ast.walk(fi.node))
+                if used and (written or kept):
+                    out.append((fi.qual + '(' + p_.arg + ')', ctx.site(fi, d_), fi,
+                                'mutable default argument `%s` of %s is %s: one object for every call' % (p_.arg, fi.qual, 'written' if written else 'stored on the object')))
+        # memoising decorators on functions that return mutable objects
+        decos = [src(d.func if isinstance(d, ast.Call) else d).split('.')[-1] for d in fi.node.decorator_list]
+        if any(d in ('lru_cache', 'cache', 'cached_property') for d in decos):
+            local_classes = {y.name for y in ast.walk(fi.node) if isinstance(y, ast.ClassDef)}
+            rets = [y for y in ast.walk(fi.node) if isinstance(y, ast.Return) and y.value is not None]
+            if not rets or not all(_immutable_result(r.value, local_classes) for r in rets):
+                out.append((fi.qual, ctx.site(fi, fi.node), fi,
+                            '%s is memoised (%s) but returns a mutable object: every caller gets the same object' % (
+                                fi.qual, ', '.join(d for d in decos if d in ('lru_cache', 'cache', 'cached_property')))))
+    # mutable defaults of record fields
+    for m in prog.modules.values():
+        for x in ast.walk(m.tree):
+            if isinstance(x, ast.Call) and isinstance(x.func, (ast.Name, ast.Attribute)) and src(x.func).split('.')[-1] == 'namedtuple':
+                for kw in x.keywords:
+                    if kw.arg == 'defaults' and isinstance(kw.value, (ast.List, ast.Tuple)) and any(_is_container(e) for e in kw.value.elts):
+                        out.append((m.name + '.namedtuple-defaults', '%s:%s' % (os.path.basename(m.path), x.lineno), None,
+                                    'a record type in %s has a mutable default field value: every record built without that field shares it' % m.name))
+    ctx._shared_state = out
+    return out
+
+
+def no_shared_mutable_state(ctx, rule='SS'):
+    """obligation of every property that speaks about "each IKE_SA / message / SA / connection": see shared_state_findings.  A finding counts
+    for this property when the function that writes the shared state, or the class that owns it, is among the functions / classes this
+    property's rules analysed (ctx.functions) - the state of what the property is about has become shared."""
+    fs = shared_state_findings(ctx)
+    touched = set(ctx.functions)
+    touched_classes = {q.rsplit('.', 1)[0] for q in touched}
+    n = 0
+    for owner, site, fi, msg in fs:
+        owner_cls = owner.rsplit('.', 1)[0]
+        relevant = (fi is not None and (fi.qual in touched or (fi.cls is not None and fi.cls.qual in touched_classes))) \
+            or owner_cls in touched_classes or any(q.startswith(owner_cls + '.') for q in touched)
+        if relevant:
+            n += 1
+            ctx.bad(rule, (rule, 'shared-state', owner), msg, site, {})
+    if not n:
+        ctx.ok(rule, 'no class-level / module-level container, class attribute, mutable default or memoised mutable result is written at run time '
+               'by the %d functions this property analyses or in their classes (%d such site(s) in the whole program)' % (len(touched), len(fs)))
